@@ -15,6 +15,7 @@ RULE = ("Hypothesis-generated programs within the Dart / Kotlin feature profiles
         "a Result with two payload arms, or a struct with >= 3 distinct scalar kinds or a nested struct. Distinct = distinct (declaration shape, backend).")
 ASSUME = [
     "no Dart or Kotlin toolchain in the sandbox: the check validates the generated declarations as text; it does not execute them",
+    "Kotlin callback interfaces (Runner_*.invoke) are compared with the C function pointer's signature on a 64-bit target (isize/usize may be declared Long/ULong there)",
     "the reference ABI model is the one the C01 end-to-end check validates against the compiled proc-macro output on the same generator",
     "accepted scalar spellings are fixed in advance: dart:ffi Int8..Uint64/Size/IntPtr/Float/Double/Bool/Pointer; JNA Byte/Short/Int/Long/Float/Double, FFIUintN, FFISizet/FFIIsizet, Pointer, Boolean (signatures) or Byte (fields, returns) for bool, Int for DiplomatChar",
 ]
@@ -110,6 +111,28 @@ def check_program(art, work, b, prog):
                     else:
                         if not abi.compatible(ret, gret, b):
                             fails.append(("fn-return", "%s: %s returns %s in the native declaration, the C ABI returns %s" % (b, sym, abi.show(abi.normalize(gret)), abi.show(abi.normalize(ret)))))
+                    if b == "kotlin":
+                        # callback parameters: the JNA Callback interface's `invoke` is the C function pointer's signature
+                        for q in m["params"]:
+                            if q[1][0] != "cb":
+                                continue
+                            rn = "Runner_DiplomatCallback_%s_%s_diplomatCallback_%s" % (it["name"], m["name"], q[0])
+                            want_ps = [("ptr",)] + [abi.abi_type(prog, a) for a in q[1][1]]
+                            want_ret = abi.abi_type(prog, q[1][2])
+                            cases_.append(([b, "callback", [abi.show(abi.normalize(x)) for x in want_ps], abi.show(abi.normalize(want_ret))], len(want_ps) >= 3, "callback"))
+                            try:
+                                got = parsed.runner(rn)
+                            except dartkt.ParseError as e:
+                                fails.append(("cb-parse", "%s: callback interface %s: %s" % (b, rn, e)))
+                                continue
+                            if got is None:
+                                fails.append(("cb-missing", "%s: no callback interface %s found" % (b, rn)))
+                                continue
+                            gps, gret = got
+                            if len(gps) != len(want_ps) or not all(abi.compatible(w, g, "kotlin-callback") for w, g in zip(want_ps, gps)) or not abi.compatible(want_ret, gret, "kotlin-callback"):
+                                fails.append(("cb-signature", "%s: %s.invoke is declared (%s) -> %s, the C function pointer is (%s) -> %s" % (
+                                    b, rn, ", ".join(abi.show(abi.normalize(x)) for x in gps), abi.show(abi.normalize(gret)),
+                                    ", ".join(abi.show(abi.normalize(x)) for x in want_ps), abi.show(abi.normalize(want_ret)))))
     return (cases_, fails, src), r
 
 
